@@ -106,8 +106,18 @@ pub enum POp {
     SplitKeep { h: usize, p: Pat },
     Skip { h: usize, n: usize },
     SkipBack { h: usize, n: usize },
-    ParseInt { h: usize, ty: IntTy },
-    ParseBool { h: usize },
+    ParseInt {
+        h: usize,
+        ty: IntTy,
+        /// through `konst::parse_with!(parser, T)` instead of the inherent method
+        #[serde(default)]
+        via_macro: bool,
+    },
+    ParseBool {
+        h: usize,
+        #[serde(default)]
+        via_macro: bool,
+    },
     IntoError { h: usize, kind: u8 },
     IntoOtherError { h: usize },
     Fork { h: usize },
@@ -140,7 +150,7 @@ impl POp {
             | Skip { h, .. }
             | SkipBack { h, .. }
             | ParseInt { h, .. }
-            | ParseBool { h }
+            | ParseBool { h, .. }
             | IntoError { h, .. }
             | IntoOtherError { h }
             | Fork { h }
@@ -541,8 +551,8 @@ impl World for ParserWorld {
                 14 => POp::SplitKeep { h, p: gen_pat(rng, rem) },
                 15 => POp::Skip { h, n: rng.range(0, rem.len() + 3) },
                 16 => POp::SkipBack { h, n: rng.range(0, rem.len() + 3) },
-                17 => POp::ParseInt { h, ty: *rng.pick(&INT_TYS) },
-                18 => POp::ParseBool { h },
+                17 => POp::ParseInt { h, ty: *rng.pick(&INT_TYS), via_macro: rng.chance(1, 3) },
+                18 => POp::ParseBool { h, via_macro: rng.chance(1, 3) },
                 19 => POp::IntoError { h, kind: rng.below(7) as u8 },
                 20 => POp::IntoOtherError { h },
                 21 => POp::Fork { h },
@@ -635,8 +645,8 @@ impl World for ParserWorld {
             match op {
                 POp::Skip { h, n } if *n > 0 => alts.push(POp::Skip { h: *h, n: n / 2 }),
                 POp::SkipBack { h, n } if *n > 0 => alts.push(POp::SkipBack { h: *h, n: n / 2 }),
-                POp::ParseInt { h, ty } if *ty != IntTy::U8 => {
-                    alts.push(POp::ParseInt { h: *h, ty: IntTy::U8 })
+                POp::ParseInt { h, ty, via_macro } if *ty != IntTy::U8 => {
+                    alts.push(POp::ParseInt { h: *h, ty: IntTy::U8, via_macro: *via_macro })
                 }
                 _ => {}
             }
@@ -781,10 +791,11 @@ fn same_str(a: &str, b: &str) -> bool {
 }
 
 macro_rules! parse_int_dispatch {
-    ($ty:expr, $p:expr, $r:expr) => {{
+    ($ty:expr, $p:expr, $r:expr, $via:expr) => {{
         macro_rules! one {
             ($meth:ident, $free:ident, $wrap:ident, $wide:ty, $nat:ty) => {{
-                let out = match $p.$meth() {
+                let res = if $via { konst::parse_with!($p, $nat) } else { $p.$meth() };
+                let out = match res {
                     Ok((v, np)) => Out::Value(Val::$wrap(v as $wide), np),
                     Err(e) => Out::Err(e),
                 };
@@ -1314,12 +1325,13 @@ fn exec(case: &ParserCase, ctx: &mut Ctx) -> Res {
                     }
                     guard(|| (Out::Moved(pre.skip_back(*n)), Exp::Ok { rem: &r[..k], piece: None, val: None, flag }))
                 }
-                ParseInt { ty, .. } => {
+                ParseInt { ty, via_macro, .. } => {
                     dir = Dir::Start;
                     splitfam = false;
                     let ty = *ty;
+                    let via = *via_macro;
                     guard(|| {
-                        let (out, exp) = parse_int_dispatch!(ty, pre, r);
+                        let (out, exp) = parse_int_dispatch!(ty, pre, r, via);
                         let exp = match exp {
                             Exp::Ok { rem, piece, val, .. } => Exp::Ok { rem, piece, val, flag },
                             e => e,
@@ -1327,11 +1339,13 @@ fn exec(case: &ParserCase, ctx: &mut Ctx) -> Res {
                         (out, exp)
                     })
                 }
-                ParseBool { .. } => {
+                ParseBool { via_macro, .. } => {
                     dir = Dir::Start;
                     splitfam = false;
+                    let via = *via_macro;
                     guard(|| {
-                        let out = match pre.parse_bool() { Ok((v, np)) => Out::Value(Val::B(v), np), Err(e) => Out::Err(e) };
+                        let res = if via { konst::parse_with!(pre, bool) } else { pre.parse_bool() };
+                        let out = match res { Ok((v, np)) => Out::Value(Val::B(v), np), Err(e) => Out::Err(e) };
                         let exp = if ks::starts_with(r, "true") {
                             match r[..4].parse::<bool>() {
                                 Ok(v) => Exp::Ok { rem: &r[4..], piece: None, val: Some(Val::B(v)), flag },
@@ -1625,7 +1639,7 @@ pub fn parser_sweep() -> Vec<(String, ParserCase)> {
         Pat::C('😀'),
     ];
     let h = 0;
-    let mut ops: Vec<POp> = vec![POp::Trim { h }, POp::TrimStart { h }, POp::TrimEnd { h }, POp::ParseBool { h }, POp::IntoOtherError { h }];
+    let mut ops: Vec<POp> = vec![POp::Trim { h }, POp::TrimStart { h }, POp::TrimEnd { h }, POp::ParseBool { h, via_macro: false }, POp::ParseBool { h, via_macro: true }, POp::IntoOtherError { h }];
     for p in &pats {
         let p = p.clone();
         ops.extend([
@@ -1653,7 +1667,8 @@ pub fn parser_sweep() -> Vec<(String, ParserCase)> {
         ops.push(POp::SkipBack { h, n });
     }
     for ty in [IntTy::U8, IntTy::I8, IntTy::U128, IntTy::I128, IntTy::Usize] {
-        ops.push(POp::ParseInt { h, ty });
+        ops.push(POp::ParseInt { h, ty, via_macro: false });
+        ops.push(POp::ParseInt { h, ty, via_macro: true });
     }
     for form in 0..PM_FORMS as u8 {
         ops.push(POp::Pm { h, form });
